@@ -18,7 +18,7 @@ ASSUMPTIONS = [
     "recursively and in order",
     "comparing a node with itself is outside the statement ('two distinct trees')",
 ]
-REQUIRED = ["boundary_pairs", "mapping_type_pairs", "pairs_with_identical_ids", "pairs_equal", "pairs_different", "difference_at_child_position_ge1", "difference_at_depth_ge2", "symmetric_checked", "subtree_pairs", "pairs_compared_before_the_edit", "inherited_map_pairs", "pairs_compared_outside_the_registry"]
+REQUIRED = ["class_pairs", "boundary_pairs", "mapping_type_pairs", "pairs_with_identical_ids", "pairs_equal", "pairs_different", "difference_at_child_position_ge1", "difference_at_depth_ge2", "symmetric_checked", "subtree_pairs", "pairs_compared_before_the_edit", "inherited_map_pairs", "pairs_compared_outside_the_registry"]
 EXHAUSTIVE = {"quick": False, "thorough": False}
 
 KINDS = ("attr_reorder", "extras_reorder", "ns_reorder", "attr_type", "name", "content", "content_none", "tail", "prefix", "attr_add", "attr_del", "attr_val", "extras_add", "extras_val",
@@ -414,9 +414,39 @@ def mapping_type_pairs(ctx):
                         emlkit.discard(a, b)
 
 
+class AppNode(Node):
+    """An application's own node class (adds behaviour, no fields)."""
+
+    def label(self):
+        return f"<{self.name}>"
+
+
+class AppNode2(AppNode):
+    pass
+
+
+def class_pairs(ctx, rng):
+    """Trees built from an application's subclass of Node against the same trees made of plain nodes (what from_json / from_xml /
+    Node() give): the comparison is structural - about the fields the statement lists."""
+    for k in range(12):
+        t = nodegen.random_tree(rng, rng.choice([1, 3, 6, 12]), names=nodegen.NAMES)
+        plain = snapshot.to_plain(t)
+        for ca, cb in ((AppNode, Node), (AppNode, AppNode2), (AppNode, AppNode)):
+            a, b = snapshot.from_plain(ca, plain), snapshot.from_plain(cb, plain)
+            ask(ctx, a, b, lambda: {"tree": plain, "kind": "class-pair", "classes": [ca.__name__, cb.__name__]}, "class-pair")
+            if len(snapshot.walk(b)) > 1:
+                x = rng.choice(snapshot.walk(b)[1:])
+                x.content = (x.content or "") + " edited"
+                ask(ctx, a, b, lambda: {"tree": plain, "kind": "class-pair", "classes": [ca.__name__, cb.__name__]}, "class-pair")
+            ctx.count("class_pairs")
+            emlkit.discard(a, b)
+        emlkit.discard(t)
+
+
 def run(ctx, params):
     rng = ctx.rng
     inherited_map_pairs(ctx)
+    class_pairs(ctx, rng)
     boundary_pairs(ctx)
     mapping_type_pairs(ctx)
     prev = None
@@ -475,6 +505,14 @@ def run(ctx, params):
 def replay(ctx, witness):
     if "inherited_maps" in witness:
         inherited_map_pairs(ctx)
+        ctx.distinct(1)
+        ctx.distinct(2)
+        return
+    if witness.get("kind") == "class-pair":
+        classes = {"Node": Node, "AppNode": AppNode, "AppNode2": AppNode2}
+        a = snapshot.from_plain(classes[witness["classes"][0]], witness["tree"])
+        b = snapshot.from_plain(classes[witness["classes"][1]], witness["tree"])
+        ask(ctx, a, b, lambda: witness, "class-pair")
         ctx.distinct(1)
         ctx.distinct(2)
         return
